@@ -18,6 +18,8 @@ META = {
 def run(chk, facts, tier):
     notification_not_blocked(chk, facts)
     chk.rule('state-capacity', 'both queue implementations keep one notification bit and one indication bit per characteristic (distinct single-bit masks); queue_notification/queue_indication set exactly their bit', floor=2)
+    chk.rule('entry-addressing', 'general queue: at / add / remove address entry `index` as bits (index * bits_per_characteristc) % 8 .. of byte index * bits_per_characteristc / 8; at reads (byte >> offset) & 0x03, '
+             'add ors in `bits << offset`, remove ands with ~(bits << offset) - the complement of the shifted bits, so that no other entry of the byte changes', floor=3)
     chk.rule('newly-queued-result', 'add(): the result is (state & bit) == 0 evaluated before the bit is or-ed in', floor=1)
     chk.rule('priority-chaining', 'notification_queue_impl_base::dequeue returns the own level\'s entry when it is not empty and consults the next level (offset + Size) only otherwise', floor=1)
     chk.rule('round-robin', 'multi-entry level: the scan starts at next_, visits (i + 1) % Size and every non-empty return stores next_ = (i + 1) % Size before returning', floor=2)
@@ -52,6 +54,44 @@ def run(chk, facts, tier):
             ok = init.k == 'BinaryOperator' and init.o == '==' and cval(init.c[1]) == 0 and strip_casts(init.c[0]).k == 'BinaryOperator' and strip_casts(init.c[0]).o == '&'
             ok = ok and res[0].l < ors[0].l and all(is_name(ret_value(r), 'result') for r in fn.returns())
         chk.instance('newly-queued-result', fn, 'result = (state & bits) == 0; state |= bits', ok, '' if ok else 'the "newly queued" answer is not the pre-state of the bit', key='add@%s' % ('single' if fn.line > 280 else 'general'))
+    for nm in ('at', 'add', 'remove'):
+        for fn in variants(facts, Q + nm, chk):
+            idx = fn.params[0]['n'] if fn.params else None
+            sub = [(tgt, op, val, st) for tgt, op, val, st in stores(fn.body) if as_elem(tgt) is not None and strip_casts(as_elem(tgt)[0]).n == 'queue_']
+            if nm != 'at' and not sub:
+                continue            # the single-entry implementation has no addressing
+            def offsets_ok(byte_node, bit_node):
+                by, bi = deep(byte_node), deep(bit_node)
+                b1, b2 = as_binop(by), as_binop(bi)
+                okb = b1 is not None and b1[0] == '/' and cval(b1[2]) == 8 and as_binop(b1[1]) is not None and as_binop(b1[1])[0] == '*' and is_name(as_binop(b1[1])[1], idx) and strip_casts(as_binop(b1[1])[2]).n == 'bits_per_characteristc'
+                oki = b2 is not None and b2[0] == '%' and cval(b2[2]) == 8 and as_binop(b2[1]) is not None and as_binop(b2[1])[0] == '*' and is_name(as_binop(b2[1])[1], idx) and strip_casts(as_binop(b2[1])[2]).n == 'bits_per_characteristc'
+                return okb and oki
+            ok, why = True, ''
+            if nm == 'at':
+                rs = fn.returns()
+                if len(rs) != 1 or as_binop(ret_value(rs[0])) is None:
+                    continue
+                b = as_binop(ret_value(rs[0]))
+                sh = as_binop(b[1]) if b[0] == '&' and cval(b[2]) == 3 else None
+                e = as_elem(sh[1]) if sh and sh[0] == '>>' else None
+                ok = e is not None and strip_casts(e[0]).n == 'queue_' and offsets_ok(e[1], sh[2])
+                why = 'at() does not read the two bits of entry `index`'
+            else:
+                ok = len(sub) == 1
+                if ok:
+                    tgt, op, val, st = sub[0]
+                    v = deep(val)
+                    bits = fn.params[1]['n']
+                    if nm == 'add':
+                        sh = as_binop(v)
+                        ok = op == '|=' and sh is not None and sh[0] == '<<' and is_name(sh[1], bits) and offsets_ok(as_elem(tgt)[1], sh[2])
+                        why = 'add() does not or in exactly `bits << offset`'
+                    else:
+                        inner = strip_casts(v.c[0]) if v.k == 'UnaryOperator' and v.o == '~' and v.c else None
+                        sh = as_binop(inner) if inner is not None else None
+                        ok = op == '&=' and sh is not None and sh[0] == '<<' and is_name(sh[1], bits) and offsets_ok(as_elem(tgt)[1], sh[2])
+                        why = 'remove() does not clear exactly ~(bits << offset): the other entries that share the byte (lower indexes for a complement taken before the shift) lose their pending requests'
+            chk.instance('entry-addressing', fn, '%s(index, ..) addresses byte index*2/8, bits (index*2)%%8' % nm, ok, '' if ok else why, key=nm)
     for fn in variants(facts, B + 'dequeue_indication_or_confirmation', chk):
         if len(fn.params) < 2 or not fn.params[1]['n']:
             continue
